@@ -146,6 +146,18 @@ def configs(events=((1,), (3,), (2, 2)), gen=None, randomize=False):
             out.append(Cfg('MaskedAutoregressiveFlow[%d]' % D, lambda D=D: fin(MaskedAutoregressiveFlow(D, 8, 2, 1)), ev, 2,
                            {'k': 'Flow', 'event': ev, 'tr': {'k': 'noCtx', 'e': 'AttributeError'}, 'emb': None,
                             'base': {'k': 'StandardNormal', 'event': ev}}, supports_ctx=False))
+            # ready-made flows with their non-default options: batch norm inside and between the layers, dropout (all inert in evaluation mode)
+            out.append(Cfg('MaskedAutoregressiveFlow[%d]/bn' % D,
+                           lambda D=D: fin(MaskedAutoregressiveFlow(D, 8, 2, 1, use_residual_blocks=False, batch_norm_within_layers=True,
+                                                                    batch_norm_between_layers=True, dropout_probability=0.2)), ev, 2,
+                           {'k': 'Flow', 'event': ev, 'tr': {'k': 'noCtx', 'e': 'AttributeError'}, 'emb': None,
+                            'base': {'k': 'StandardNormal', 'event': ev}}, supports_ctx=False, in_c18=False))
+            if D >= 2:
+                out.append(Cfg('SimpleRealNVP[%d]/bn' % D,
+                               lambda D=D: fin(SimpleRealNVP(D, 8, 2, 1, dropout_probability=0.2, batch_norm_within_layers=True,
+                                                             batch_norm_between_layers=True)), ev, 2,
+                               {'k': 'Flow', 'event': ev, 'tr': {'k': 'noCtx', 'e': 'RuntimeError'}, 'emb': None,
+                                'base': {'k': 'StandardNormal', 'event': ev}}, supports_ctx=False, in_c18=False))
             if D >= 2:
                 # a linear layer with its weight cache ON, in front of a context-dependent transform (the sampling path calls the
                 # cached INVERSE before anything filled the cache)
